@@ -769,10 +769,13 @@ impl Format for ast::StmtKind {
             },
 
             ast::StmtKind::RelTimeLabel { delta, _absolute_time_comment } => {
+                // (anything but a plain literal is parenthesized; `+` followed by e.g. `++x` would lex differently)
+                let delta_is_literal = matches!(delta.value, ast::Expr::LitInt { value, .. } if value >= 0);
+                let (open, close) = if delta_is_literal { ("", "") } else { ("(", ")") };
                 if let Some(time) = _absolute_time_comment {
-                    out.fmt_label(("+", delta, ": // ", time))?;
+                    out.fmt_label(("+", open, SuppressParens(delta), close, ": // ", time))?;
                 } else {
-                    out.fmt_label(("+", delta, ":"))?;
+                    out.fmt_label(("+", open, SuppressParens(delta), close, ":"))?;
                 }
 
                 out.suppress_blank_line();
@@ -899,7 +902,38 @@ impl Format for ast::Expr {
             },
             ast::Expr::UnOp(op, x) => match op.value {
                 | token![unop -] | token![!] | token![~]
-                    => out.fmt_optional_parens(|out| out.fmt((op, x))),
+                    => {
+                        // does the operand's own text begin with a minus sign?
+                        let operand_starts_with_minus = match &x.value {
+                            ast::Expr::LitInt { value, format } => *value < 0 && format.signed,
+                            ast::Expr::LitFloat { value } => value.is_sign_negative() && !value.is_nan(),
+                            _ => false,
+                        };
+                        let operand_is_plain_literal = matches!(&x.value, ast::Expr::LitInt { .. } | ast::Expr::LitFloat { .. }) && !operand_starts_with_minus;
+
+                        // A negative literal is read by the parser as `-` applied to a literal (and `-INF` as `-` applied
+                        // to a variable); print those the way a negative literal prints so that reformatting is idempotent.
+                        // (unary minus binds tighter than any binary operator, so the parentheses are never needed)
+                        if op.value == token![unop -] && (operand_is_plain_literal || matches!(x.value, ast::Expr::Var(_))) {
+                            return out.fmt((op, x));
+                        }
+                        // (`2147483648` wraps to i32::MIN, whose negation is again i32::MIN, written `-2147483648`)
+                        if op.value == token![unop -] && matches!(x.value, ast::Expr::LitInt { value: i32::MIN, format: ast::IntFormat::SIGNED }) {
+                            return out.fmt("-2147483648");
+                        }
+
+                        // Operands whose text would fuse with the operator into another token (`--`, `!E`, `!4`)
+                        // or into a negative literal must be parenthesized.
+                        let needs_parens = operand_starts_with_minus || match &x.value {
+                            ast::Expr::XcrementOp { order: ast::XcrementOpOrder::Pre, .. } => true,
+                            ast::Expr::UnOp(inner_op, _) => matches!(inner_op.value, token![unop -] | token![!] | token![~]),
+                            _ => op.value == token![!],
+                        };
+                        out.fmt_optional_parens(|out| match needs_parens {
+                            true => out.fmt((op, "(", SuppressParens(x), ")")),
+                            false => out.fmt((op, x)),
+                        })
+                    },
 
                 | token![unop $] | token![unop %]
                 | token![unop int] | token![unop float]
